@@ -58,7 +58,7 @@ func init() {
 			}
 			return Tuple{v, Iface{}}
 		}
-		unsupported("strconv.ParseFloat of symbolic text that was not produced by FormatFloat")
-		return nil
+		// any other text: the real strconv code, executed symbolically
+		return in.callSSA(caller, fn, args, nil)
 	})
 }
